@@ -5,7 +5,7 @@ theorem self_ne_append (c s : String) (hs : s ≠ "") : c ≠ c ++ s := fun h =>
 
 theorem globals_aliasStmts (api : Api) (cur : Name) (a : Alias) :
     (aliasStmts api cur a).flatMap Stmt.globals
-      = (fmtClass a.name ++ "_validator") :: (if aliasEndsInUser api api.nAliases a.ty then [a.name] else []) := by
+      = (fmtClass a.name ++ "_validator") :: (if aliasEndsInUser api api.nAliases a.ty then [fmtClass a.name] else []) := by
   simp only [aliasStmts, List.flatMap_append, List.flatMap_cons, List.flatMap_nil, globals_assign_none]
   by_cases hr : a.redact <;> by_cases he : aliasEndsInUser api api.nAliases a.ty = true
   all_goals simp [hr, he]
@@ -22,7 +22,7 @@ theorem sec_aliases {api : Api} (hapi : apiWF api = true) {ns : Namespace} (hns 
     (fun hle h => ⟨h.1.mono hle, fun d hd => (h.2 d hd).mono hle⟩) (fun hle h => h.mono hle) ns.aliases ?_
     hnd st hwf ⟨hctx, hcls⟩ hfresh
   intro pre a post hsplit st hwf ⟨hctx, hcls⟩ hpre hfr
-  obtain ⟨htok, hfixc, hal⟩ := aliasWF_at hapi hns hsplit
+  obtain ⟨htok, hal⟩ := aliasWF_at hapi hns hsplit
   have hsub : ∀ y ∈ pre, y ∈ ns.aliases := fun y hy => by rw [hsplit]; exact List.mem_append_left _ hy
   -- names bound by this item
   rw [globals_aliasStmts] at hfr
@@ -68,13 +68,12 @@ theorem sec_aliases {api : Api} (hapi : apiWF api = true) {ns : Namespace} (hns 
     rw [hle.glob _ _ _ hg2]; rfl
   -- (3) the class alias
   by_cases hends : aliasEndsInUser api api.nAliases a.ty = true
-  · have hfix := hfixc hends
-    have hshape := aliasEndsInUser_shape hends
-    have hfr_a : st.global? (modName ns) a.name = none := hfr _ (by simp [hends])
+  · have hshape := aliasEndsInUser_shape hends
+    have hfr_a : st.global? (modName ns) (fmtClass a.name) = none := hfr _ (by simp [hends])
     have key : ∀ ns' n', (a.ty = .user ns' n' ∨ a.ty = .alias ns' n') →
         ∃ st3, Steps st2 (modName ns)
-            [Stmt.assign a.name none (some (qual ns.name ns' (fmtClass n'))) [qual ns.name ns' (fmtClass n')]] st3
-          ∧ ∃ c, st3.global? (modName ns) a.name = some (.cls c)
+            [Stmt.assign (fmtClass a.name) none (some (qual ns.name ns' (fmtClass n'))) [qual ns.name ns' (fmtClass n')]] st3
+          ∧ ∃ c, st3.global? (modName ns) (fmtClass a.name) = some (.cls c)
               ∧ ∀ k' tag, tagOKTy api k' a.ty tag = true → HasA st3 c (fmtVar tag) := by
       intro ns' n' ht
       obtain ⟨c, hres, htags⟩ := alias_target hapi hns hctx hcls pre hsub hpre htok hal
@@ -82,7 +81,7 @@ theorem sec_aliases {api : Api} (hapi : apiWF api = true) {ns : Namespace} (hns 
       have hres2 := hres.mono hs12.le
       have hrdy : Ready st2 (modName ns) (qual ns.name ns' (fmtClass n')) :=
         ⟨.cls c, hres2, fun a ha => by rw [qual_attr] at ha; exact absurd ha (by simp)⟩
-      have hfr2 : st2.global? (modName ns) a.name = none := by
+      have hfr2 : st2.global? (modName ns) (fmtClass a.name) = none := by
         rw [hs12.frame _ _ (fun _ => ?_)]
         · exact hfr_a
         · have : (([Stmt.assign (fmtClass a.name ++ "_validator") none
@@ -93,10 +92,10 @@ theorem sec_aliases {api : Api} (hapi : apiWF api = true) {ns : Namespace} (hns 
               (if a.redact then [Stmt.assign (fmtClass a.name ++ "_validator") (some "_redact") none
                 [here (fmtClass a.name ++ "_validator")]] else [])).flatMap Stmt.globals) = [fmtClass a.name ++ "_validator"] := by
             by_cases hr : a.redact = true <;> simp [hr]
-          rw [this, hfix]
+          rw [this]
           simp only [List.mem_singleton]
           exact self_ne_append _ _ (by decide)
-      obtain ⟨st3, v3, hs3, hg3, hres3, _, _⟩ := steps_assign_glob (cur := modName ns) (t := a.name)
+      obtain ⟨st3, v3, hs3, hg3, hres3, _, _⟩ := steps_assign_glob (cur := modName ns) (t := fmtClass a.name)
         (cp := some (qual ns.name ns' (fmtClass n'))) (uses := [qual ns.name ns' (fmtClass n')]) hs2.wf
         (fun r hr => by simp only [List.mem_singleton] at hr; subst hr; exact hrdy)
         (fun r hr => by injection hr with hr; subst hr; exact hrdy) hfr2 (hs12.le.started _ hctx.started)
@@ -105,14 +104,14 @@ theorem sec_aliases {api : Api} (hapi : apiWF api = true) {ns : Namespace} (hns 
       exact ⟨st3, hs3, c, hg3, fun k' tag hk' => (hs12.le.trans hs3.le).hasA (htags k' tag hk')⟩
     rcases hshape with ⟨ns', n', ht⟩ | ⟨ns', n', ht⟩
     · obtain ⟨st3, hs3, c, hg3, htags⟩ := key ns' n' (Or.inl ht)
-      refine ⟨st3, ?_, hvalid st3 hs3.le, fun _ => ⟨c, by rw [hfix]; exact hg3, htags⟩⟩
+      refine ⟨st3, ?_, hvalid st3 hs3.le, fun _ => ⟨c, hg3, htags⟩⟩
       simp only [ht] at hs12
       have hends' := hends
       rw [ht] at hends'
       simp only [aliasStmts, ht, hends', if_true]
       exact hs12.append hs3
     · obtain ⟨st3, hs3, c, hg3, htags⟩ := key ns' n' (Or.inr ht)
-      refine ⟨st3, ?_, hvalid st3 hs3.le, fun _ => ⟨c, by rw [hfix]; exact hg3, htags⟩⟩
+      refine ⟨st3, ?_, hvalid st3 hs3.le, fun _ => ⟨c, hg3, htags⟩⟩
       simp only [ht] at hs12
       have hends' := hends
       rw [ht] at hends'
